@@ -32,9 +32,10 @@ VARIABLES fs,           \* directory
           pc,           \* step inside the call
           k,            \* next chunk
           result,       \* outcome of the last finished call: "none" | "ok" | "failed" | "refused"
-          srcAtStart    \* status of the call's source file when the call started (history variable)
+          srcAtStart,   \* status of the call's source file when the call started (history variable)
+          pubAtStart    \* a complete compressed pair (.cbin + its .ch) was there when the call started (history variable)
 
-vars == <<fs, op, keep, pc, k, result, srcAtStart>>
+vars == <<fs, op, keep, pc, k, result, srcAtStart, pubAtStart>>
 
 Set(f, n, v) == [f EXCEPT ![n] = v]
 
@@ -59,110 +60,112 @@ InitDirs ==
            [] n = "smeta" -> IF sb = "A" THEN "A" ELSE "C"]
      : <<b, c, t, sb, st>> \in {x \in {"A", "C"} \X {"A", "C", "S"} \X {"A", "P"} \X {"A", "C"} \X {"A", "P"} :
                                   x[1] = "C" \/ x[2] = "C"}}
+\* data file and header of one compression, both whole
+PairComplete(f) == f["cbin"] \in {"C", "S"} /\ f["ch"] = f["cbin"]
 Init ==
     /\ fs \in InitDirs
-    /\ op = "none" /\ keep = TRUE /\ pc = "idle" /\ k = 0 /\ result = "none" /\ srcAtStart = "A"
+    /\ op = "none" /\ keep = TRUE /\ pc = "idle" /\ k = 0 /\ result = "none" /\ srcAtStart = "A" /\ pubAtStart = FALSE
 
 (* ---- compress_file(keep_original) on Reader(bin) ---- *)
 CStart(kp) ==
     /\ op = "none" /\ fs["bin"] = "C"
     /\ op' = "compress" /\ keep' = kp /\ pc' = "open" /\ k' = 0 /\ result' = "none" /\ srcAtStart' = fs["bin"]
-    /\ UNCHANGED fs
+    /\ pubAtStart' = PairComplete(fs) /\ UNCHANGED fs
 COpen ==      \* mtscomp opens the temporary output for writing (truncates a leftover)
     /\ op = "compress" /\ pc = "open"
     /\ fs' = Set(fs, "cbin_tmp", "P") /\ pc' = "chunk"
-    /\ UNCHANGED <<op, keep, k, result, srcAtStart>>
+    /\ UNCHANGED <<op, keep, k, result, srcAtStart, pubAtStart>>
 CChunk ==     \* one chunk compressed and appended
     /\ op = "compress" /\ pc = "chunk" /\ k < NChunks
     /\ k' = k + 1
     /\ fs' = Set(fs, "cbin_tmp", IF k + 1 = NChunks THEN "C" ELSE "P")
     /\ pc' = IF k + 1 = NChunks THEN "header0" ELSE "chunk"
-    /\ UNCHANGED <<op, keep, result, srcAtStart>>
+    /\ UNCHANGED <<op, keep, result, srcAtStart, pubAtStart>>
 CHeaderOpen ==    \* .ch opened for writing under its final name (a stale header is truncated)
     /\ op = "compress" /\ pc = "header0"
     /\ fs' = Set(fs, "ch", "P") /\ pc' = "header"
-    /\ UNCHANGED <<op, keep, k, result, srcAtStart>>
+    /\ UNCHANGED <<op, keep, k, result, srcAtStart, pubAtStart>>
 CHeader ==    \* header content written
     /\ op = "compress" /\ pc = "header"
     /\ fs' = Set(fs, "ch", "C") /\ pc' = "check"
-    /\ UNCHANGED <<op, keep, k, result, srcAtStart>>
+    /\ UNCHANGED <<op, keep, k, result, srcAtStart, pubAtStart>>
 CCheck ==     \* mtscomp's check_after_compress
     /\ op = "compress" /\ pc = "check"
-    /\ pc' = "rename" /\ UNCHANGED <<fs, op, keep, k, result, srcAtStart>>
+    /\ pc' = "rename" /\ UNCHANGED <<fs, op, keep, k, result, srcAtStart, pubAtStart>>
 CRename ==
     /\ op = "compress" /\ pc = "rename"
     /\ fs' = [fs EXCEPT !["cbin"] = fs["cbin_tmp"], !["cbin_tmp"] = "A"]
     /\ pc' = IF keep THEN "return" ELSE "unlink"
-    /\ UNCHANGED <<op, keep, k, result, srcAtStart>>
+    /\ UNCHANGED <<op, keep, k, result, srcAtStart, pubAtStart>>
 CUnlink ==
     /\ op = "compress" /\ pc = "unlink"
     /\ fs' = Set(fs, "bin", "A") /\ pc' = "return"
-    /\ UNCHANGED <<op, keep, k, result, srcAtStart>>
+    /\ UNCHANGED <<op, keep, k, result, srcAtStart, pubAtStart>>
 
 (* ---- decompress_file(keep_original) on Reader(cbin), default output = the final .bin ---- *)
 DStart(kp) ==
     /\ op = "none" /\ fs["cbin"] = "C" /\ fs["ch"] = "C"
     /\ op' = "decompress" /\ keep' = kp /\ k' = 0 /\ result' = "none" /\ srcAtStart' = fs["cbin"]
     /\ pc' = IF Present(fs, "bin") THEN "refuse" ELSE "open"     \* mtscomp refuses to overwrite
-    /\ UNCHANGED fs
+    /\ pubAtStart' = PairComplete(fs) /\ UNCHANGED fs
 DRefuse ==
     /\ op = "decompress" /\ pc = "refuse"
-    /\ op' = "none" /\ pc' = "idle" /\ result' = "refused" /\ UNCHANGED <<fs, keep, k, srcAtStart>>
+    /\ op' = "none" /\ pc' = "idle" /\ result' = "refused" /\ UNCHANGED <<fs, keep, k, srcAtStart, pubAtStart>>
 DOpen ==
     /\ op = "decompress" /\ pc = "open"
-    /\ fs' = Set(fs, "bin", "P") /\ pc' = "chunk" /\ UNCHANGED <<op, keep, k, result, srcAtStart>>
+    /\ fs' = Set(fs, "bin", "P") /\ pc' = "chunk" /\ UNCHANGED <<op, keep, k, result, srcAtStart, pubAtStart>>
 DChunk ==
     /\ op = "decompress" /\ pc = "chunk" /\ k < NChunks
     /\ k' = k + 1
     /\ fs' = Set(fs, "bin", IF k + 1 = NChunks THEN "C" ELSE "P")
     /\ pc' = IF k + 1 = NChunks THEN "check" ELSE "chunk"
-    /\ UNCHANGED <<op, keep, result, srcAtStart>>
+    /\ UNCHANGED <<op, keep, result, srcAtStart, pubAtStart>>
 DCheck ==
     /\ op = "decompress" /\ pc = "check"
-    /\ pc' = (IF keep THEN "return" ELSE "unlink1") /\ UNCHANGED <<fs, op, keep, k, result, srcAtStart>>
+    /\ pc' = (IF keep THEN "return" ELSE "unlink1") /\ UNCHANGED <<fs, op, keep, k, result, srcAtStart, pubAtStart>>
 DUnlink1 ==
     /\ op = "decompress" /\ pc = "unlink1"
-    /\ fs' = Set(fs, "cbin", "A") /\ pc' = "unlink2" /\ UNCHANGED <<op, keep, k, result, srcAtStart>>
+    /\ fs' = Set(fs, "cbin", "A") /\ pc' = "unlink2" /\ UNCHANGED <<op, keep, k, result, srcAtStart, pubAtStart>>
 DUnlink2 ==
     /\ op = "decompress" /\ pc = "unlink2"
-    /\ fs' = Set(fs, "ch", "A") /\ pc' = "return" /\ UNCHANGED <<op, keep, k, result, srcAtStart>>
+    /\ fs' = Set(fs, "ch", "A") /\ pc' = "return" /\ UNCHANGED <<op, keep, k, result, srcAtStart, pubAtStart>>
 
 (* ---- decompress_to_scratch(scratch_dir) on Reader(cbin) ---- *)
 SStart ==
     /\ op = "none" /\ fs["cbin"] = "C" /\ fs["ch"] = "C"
     /\ op' = "scratch" /\ keep' = TRUE /\ k' = 0 /\ result' = "none" /\ srcAtStart' = fs["cbin"]
-    /\ pc' = "copymeta" /\ UNCHANGED fs
+    /\ pc' = "copymeta" /\ pubAtStart' = PairComplete(fs) /\ UNCHANGED fs
 SCopyMeta ==
     /\ op = "scratch" /\ pc = "copymeta"
     /\ fs' = Set(fs, "smeta", "C")
     /\ pc' = IF Present(fs, "sbin") THEN "return"                 \* an existing scratch file is re-used
              ELSE IF Present(fs, "stmp") THEN "rmtmp" ELSE "open"
-    /\ UNCHANGED <<op, keep, k, result, srcAtStart>>
+    /\ UNCHANGED <<op, keep, k, result, srcAtStart, pubAtStart>>
 SRmTmp ==     \* overwrite=True: a leftover temporary is removed first
     /\ op = "scratch" /\ pc = "rmtmp"
-    /\ fs' = Set(fs, "stmp", "A") /\ pc' = "open" /\ UNCHANGED <<op, keep, k, result, srcAtStart>>
+    /\ fs' = Set(fs, "stmp", "A") /\ pc' = "open" /\ UNCHANGED <<op, keep, k, result, srcAtStart, pubAtStart>>
 SOpen ==
     /\ op = "scratch" /\ pc = "open"
-    /\ fs' = Set(fs, "stmp", "P") /\ pc' = "chunk" /\ UNCHANGED <<op, keep, k, result, srcAtStart>>
+    /\ fs' = Set(fs, "stmp", "P") /\ pc' = "chunk" /\ UNCHANGED <<op, keep, k, result, srcAtStart, pubAtStart>>
 SChunk ==
     /\ op = "scratch" /\ pc = "chunk" /\ k < NChunks
     /\ k' = k + 1
     /\ fs' = Set(fs, "stmp", IF k + 1 = NChunks THEN "C" ELSE "P")
     /\ pc' = IF k + 1 = NChunks THEN "move" ELSE "chunk"
-    /\ UNCHANGED <<op, keep, result, srcAtStart>>
+    /\ UNCHANGED <<op, keep, result, srcAtStart, pubAtStart>>
 SMove ==
     /\ op = "scratch" /\ pc = "move"
     /\ fs' = [fs EXCEPT !["sbin"] = fs["stmp"], !["stmp"] = "A"]
-    /\ pc' = "return" /\ UNCHANGED <<op, keep, k, result, srcAtStart>>
+    /\ pc' = "return" /\ UNCHANGED <<op, keep, k, result, srcAtStart, pubAtStart>>
 
 Return ==
     /\ op # "none" /\ pc = "return"
-    /\ op' = "none" /\ pc' = "idle" /\ result' = "ok" /\ UNCHANGED <<fs, keep, k, srcAtStart>>
+    /\ op' = "none" /\ pc' = "idle" /\ result' = "ok" /\ UNCHANGED <<fs, keep, k, srcAtStart, pubAtStart>>
 
 \* the running call ends with an exception; nothing is cleaned up (the code has no handler)
 Fail ==
     /\ op # "none" /\ pc \notin {"return", "refuse"}
-    /\ op' = "none" /\ pc' = "idle" /\ result' = "failed" /\ UNCHANGED <<fs, keep, k, srcAtStart>>
+    /\ op' = "none" /\ pc' = "idle" /\ result' = "failed" /\ UNCHANGED <<fs, keep, k, srcAtStart, pubAtStart>>
 
 Step == COpen \/ CChunk \/ CHeaderOpen \/ CHeader \/ CCheck \/ CRename \/ CUnlink
         \/ DRefuse \/ DOpen \/ DChunk \/ DCheck \/ DUnlink1 \/ DUnlink2
@@ -191,6 +194,10 @@ CompletedP(o, kp, res, f) ==
           [] o = "decompress" -> f["bin"] = "C" /\ (kp => f["cbin"] = "C") /\ (~kp => f["cbin"] = "A" /\ f["ch"] = "A")
           [] o = "scratch" -> f["sbin"] \in {"C"} /\ f["smeta"] = "C" /\ f["cbin"] = "C"
           [] OTHER -> TRUE
+\* a compression that fails at one of its chunks (the property's fault set) leaves no final-named compressed file that is
+\* not a complete compressed recording: data file and header belong together (a .cbin whose .ch is gone cannot be read)
+\* (pub: such a pair was there when the call started - leftovers of earlier failures are not this call's doing)
+FailedAtChunkP(o, res, at, pub, f) == (o = "compress" /\ res = "failed" /\ at \in {"open", "chunk"} /\ pub) => PairComplete(f)
 \* every usable entry path resolves to a binary holding the recording
 Usable(f, e) ==
     CASE e = "bin" -> f["bin"] = "C"
@@ -206,7 +213,8 @@ SourceSafe == [][SourceSafeP(fs, fs')]_vars
 \* outcome formulas are evaluated at the step that ends the call
 Outcome == [][(op # "none" /\ op' = "none") =>
                  /\ SourceUntouchedP(op, result', srcAtStart, fs')
-                 /\ CompletedP(op, keep, result', fs')]_vars
+                 /\ CompletedP(op, keep, result', fs')
+                 /\ FailedAtChunkP(op, result', pc, pubAtStart, fs')]_vars
 ResolveSame == op = "none" => ResolveP(fs, LAMBDA e : ResolveData(fs, e))
 TypeOK == fs \in [Names -> {"A", "P", "C", "S"}] /\ k \in 0..NChunks
 =============================================================================
